@@ -32,8 +32,13 @@ func symUnop(instr *ssa.UnOp, x value) (value, bool) {
 // symRead builds an ite chain for arr[idx] (scalar integer elements only).
 func symRead(arr array, idx symInt, et types.Type) value {
 	k := kindOf(et)
-	if k == types.Invalid {
-		panic(unsupported("symbolic index into non-scalar array"))
+	if b, ok := et.Underlying().(*types.Basic); k == types.Invalid || !ok || b.Info()&(types.IsInteger|types.IsBoolean) == 0 {
+		// non-scalar elements (strings, structs): fork over the feasible index values
+		i := X.concretise(idx)
+		if i < 0 || i >= int64(len(arr)) {
+			panic(targetPanic{v: iface{t: types.Typ[types.String], v: "index out of range (symbolic)"}})
+		}
+		return arr[i]
 	}
 	// bounds: out-of-range index would panic in Go; decide it.
 	inb := "(bvult " + resize(idx, types.Uint64).t + " " + bvc(uint64(len(arr)), 64) + ")"
